@@ -28,7 +28,7 @@ Proof.
     destruct v; try discriminate. exists p, sz. split; [exact Hp|]. eapply D5. exact Hp. }
   split; [split|split].
   - (* stuck -> shapes *)
-    intros ST. destruct (lock s) as [|k|p0] eqn:L.
+    intros ST. destruct (lock s) as [|k|p0|] eqn:L.
     + right.
       destruct (quiescent_facts _ _ Q L) as (Q1 & Q2 & Q3 & Q4 & Q5 & Q6).
       destruct SI as (B1 & _ & B3 & _).
@@ -50,6 +50,7 @@ Proof.
       destruct (deadlock_shape_l _ _ Hc RE Q NL) as (X1 & X2 & X3 & X4 & _).
       repeat split; auto.
     + exfalso. eapply T4. reflexivity.
+    + exfalso. exact (reach_nobcast _ _ RE L).
   - (* shapes -> stuck *)
     intros [F|S1].
     + destruct (F3W F) as (p & sz & Hp & _). exists p, (PLeftCtx sz). split; [exact Hp|]. intros r; discriminate.
@@ -66,9 +67,9 @@ Proof.
 Qed.
 
 (* ---- (2) internal activity terminates: a ranking function ---------------------------------------------- *)
-Lemma mu_nonneg s : 0 <= mu s.
+Lemma mu_nonneg s : tokinv s -> 0 <= mu s.
 Proof.
-  unfold mu, sb, b2z.
+  intros (T1 & _). unfold mu, sb, b2z.
   pose proof (cnt_nonneg is_insel (prods s)). pose proof (cnt_nonneg is_lefttok (prods s)).
   pose proof (cnt_nonneg is_leftctx (prods s)). pose proof (cnt_nonneg is_await (prods s)).
   destruct (tok s), (lock s); lia.
@@ -209,13 +210,13 @@ Proof.
   intros Hc RF St IR R.
   pose proof (reachable_fit_reachable _ _ RF) as RE.
   pose proof (reach_tokinv _ _ _ RE) as T.
-  destruct (internal_terminates_l _ _ _ _ T St IR R) as (L & _ & _).
-  pose proof (mu_nonneg s'). split; [lia|].
+  destruct (internal_terminates_l _ _ _ _ T St IR R) as (L & T' & _).
+  pose proof (mu_nonneg s' T'). split; [lia|].
   intros Q.
   assert (RF' : reachable_fit c s').
   { eapply reachP_run; [exact RF| |exact R]. eapply Forall_impl; [|exact IR]. intros a. apply internal_is_fit. }
   pose proof (reachable_fit_reachable _ _ RF') as RE'.
-  destruct (lock s') as [|k|p0] eqn:LK.
+  destruct (lock s') as [|k|p0|] eqn:LK.
   - right. pose proof (no_lost_wakeup_partial_l _ _ Hc RF' Q LK) as AR.
     destruct (quiescent_facts _ _ Q LK) as (Q1 & Q2 & _).
     destruct (pq_size_bounds_l _ _ Hc RE') as (_ & _ & Z0).
@@ -234,7 +235,8 @@ Proof.
   - left. assert (NL : lock s' <> Free) by congruence.
     destruct (deadlock_shape_l _ _ Hc RE' Q NL) as (X1 & X2 & X3 & X4 & _). rewrite LK in X1.
     unfold f3_shape. rewrite LK. auto.
-  - exfalso. destruct (reach_tokinv _ _ _ RE') as (_ & _ & _ & T4). eapply T4. exact LK.
+  - exfalso. destruct (reach_tokinv _ _ _ RE') as (_ & _ & _ & T4 & _). eapply T4. exact LK.
+  - exfalso. exact (reach_nobcast _ _ RE' LK).
 Qed.
 
 (* PROGRESS (constructive): in an S1-free reachable state of a running queue whose mutex is free, if somebody is
@@ -284,4 +286,32 @@ Proof.
     - exfalso. exact (NR r eq_refl). }
   destruct EN as (l & Hi & NE). destruct (step c s l) as [[s1 z]|] eqn:E; [|congruence].
   exists l, s1, z. split; [exact Hi|]. split; [exact E|]. eapply mu_decreases; eauto.
+Qed.
+
+(* ---- the cond API including Broadcast: the token invariant holds on EVERY run -------------------------- *)
+Lemma reachable_api_tokinv c s : reachable_api c s -> tokinv s.
+Proof.
+  intros [ls R]. apply (reach_tokinv (fun _ => True) c s). exists ls. split; [|exact R].
+  clear R. induction ls; constructor; auto.
+Qed.
+
+Lemma cond_api_invariant_l c s :
+  reachable_api c s ->
+  cnt is_insel (prods s) + cnt is_leftctx (prods s) = waiting s + b2z (tok s) + sb s /\ 0 <= waiting s /\
+  (forall p, lock s <> BRecv p) /\
+  (lock s = BBcast -> tok s = true /\ 0 < waiting s).
+Proof. intros R. destruct (reachable_api_tokinv _ _ R) as (A1 & A2 & _ & A4 & A5). auto. Qed.
+
+(* Broadcast with every counted waiter inside the select: after the waiters have taken their tokens the
+   broadcaster has left, nobody is counted and no token is left over *)
+Lemma broadcast_step_l c s s' z :
+  step c s LBroadcast = Some (s', z) ->
+  lock s = Free /\
+  (waiting s = 0 -> s' = s) /\
+  (0 < waiting s -> tok s = false -> tok s' = true /\ waiting s' = waiting s - 1 /\
+     (waiting s = 1 -> lock s' = Free) /\ (1 < waiting s -> lock s' = BBcast)) /\
+  (0 < waiting s -> tok s = true -> lock s' = BBcast /\ waiting s' = waiting s).
+Proof.
+  intros H. revert H. step_cases; repeat split; intros; ss; try lia; try reflexivity; try congruence.
+  destruct s; simpl in *; subst; reflexivity.
 Qed.
